@@ -12,7 +12,7 @@ from gvmon.gen import records as R
 from gvmon.models import dialect as M
 from gvmon.monitors import contracts
 
-RULE = ("(1) uniform-regime files in each of 36 dialect points x checklines {0,1,2,5,10,50}: reported dialect == written "
+RULE = ("(1) uniform-regime files in each of 48 dialect points (key=value, key="value", key "value", key value x separators x trailing x repeated) x checklines {0,1,2,5,10,50}: reported dialect == written "
         "dialect at DataIterator / FeatureDB / reopened FeatureDB, per-line helpers.infer_dialect == exhibited dialect; "
         "(2) routing files (gene/mRNA/exon with Parent, or GTF exons) in every dialect point; (3) mixtures: files whose "
         "lines carry two values of one dialect key with generated attribute-count weights incl. exact ties in both orders "
@@ -285,7 +285,7 @@ def supplied(ctx, case):
 # ---- generators ---------------------------------------------------------------
 def mix_case(rng):
     """Two values of one dialect key inside the window, with attribute-count weights."""
-    key = rng.choice(["field separator", "trailing semicolon", "repeated keys", "fmt/keyval", "quoted"])
+    key = rng.choice(["field separator", "trailing semicolon", "repeated keys", "fmt/keyval", "quoted", "quoted (key=value)"])
     base = rng.choice(M.points())
     A, B = dict(base), dict(base)
     if key == "field separator":
@@ -297,6 +297,8 @@ def mix_case(rng):
         A["repeated"], B["repeated"] = True, False
     elif key == "fmt/keyval":
         A["fmt"], B["fmt"] = rng.sample(["gff3", "gtf"], 2)
+    elif key == "quoted (key=value)":
+        A["fmt"], B["fmt"] = rng.sample(["gff3", "gff3q"], 2)
     else:
         A["fmt"], B["fmt"] = rng.sample(["gtf", "gff2"], 2)
     tie = rng.random() < 0.4
